@@ -105,9 +105,9 @@ TARGETS += [
     dict(coq="src_to_p2wsh_spk", file="bitcoinutils/script.py", qual="Script.to_p2wsh_script_pub_key", params=[], selfattrs=[("script", "script")], sha=True,
          ret="script", tiefile="locking_scripts", fallback="fun sha256 ts => of_option (Script.to_p2wsh_script_pub_key sha256 ts)"),
     dict(coq="src_addr_to_hash160", file="bitcoinutils/keys.py", qual="Address.to_hash160", params=[], selfattrs=[("hash160", "hexbytes")],
-         ret="bytes", tiefile="locking_scripts", callable_method=True, fallback="fun h => Ok h"),
+         ret="bytes", tiefile="locking_scripts", callable_method=True, fallback="fun (h : bytes) => Ok h"),
     dict(coq="src_seg_to_witness_program", file="bitcoinutils/keys.py", qual="SegwitAddress.to_witness_program", params=[],
-         selfattrs=[("witness_program", "hexbytes")], ret="bytes", tiefile="locking_scripts", callable_method=True, fallback="fun h => Ok h"),
+         selfattrs=[("witness_program", "hexbytes")], ret="bytes", tiefile="locking_scripts", callable_method=True, fallback="fun (h : bytes) => Ok h"),
     dict(coq="src_p2pkh_spk", file="bitcoinutils/keys.py", qual="P2pkhAddress.to_script_pub_key", params=[], selfattrs=[("hash160", "hexbytes")],
          ret="script", tiefile="locking_scripts", fallback="fun h => Ok (Address.spk_p2pkh h)"),
     dict(coq="src_p2sh_spk", file="bitcoinutils/keys.py", qual="P2shAddress.to_script_pub_key", params=[], selfattrs=[("hash160", "hexbytes")],
@@ -128,7 +128,7 @@ TARGETS += [
                  ("leaf_ver", "int"), ("sighash", "int")],
          selfattrs=[("version", "bytes"), ("inputs", "list:txin"), ("outputs", "list:txout"), ("locktime", "bytes")],
          ret="bytes", tiefile="taproot_digest",
-         fallback="fun sha256 i spks ams ext sc lv ht v ins outs l => if i <? 0 then Raise else of_option (Sighash.taproot_digest sha256 (Tx.Build_tx v ins outs l false []) (Z.to_nat i) spks ams ext sc ht)"),
+         fallback="fun sha256 i spks ams ext sc (lv : Z) ht v ins outs l => if i <? 0 then Raise else of_option (Sighash.taproot_digest sha256 (Tx.Build_tx v ins outs l false []) (Z.to_nat i) spks ams ext sc ht)"),
     dict(coq="src_segwit_digest", file="bitcoinutils/transactions.py", qual="Transaction.get_transaction_segwit_digest", sha=True,
          params=[("txin_index", "int"), ("script", "script"), ("amount", "int"), ("sighash", "int")],
          selfattrs=[("version", "bytes"), ("inputs", "list:txin"), ("outputs", "list:txout"), ("locktime", "bytes")],
@@ -984,6 +984,8 @@ def main():
     defaults_out = []
     for t in TARGETS:
         try:
+            if os.environ.get("GEN_SRC_FORCE_FALLBACK"):
+                raise Unsupported("forced (self-test of the fallback definitions)")
             text, defaults = translate(t, repo, consts, known)
             TRANSLATED.add(t["coq"])
             out.append("(* %s:%s *)" % (t["file"], t["qual"]))
